@@ -43,6 +43,12 @@ class CompileCase:
         linkd = {l["id"]: l for l in desc["links"]}
         orgd = {o["id"]: o for o in desc["origins"]}
         spars = dict(pars)
+        # the declared NAME of a parameter is the user's choice: mostly '<attr>_<element>', but the
+        # first symbolic link parameter of each kind is sometimes called by the bare attribute name
+        # ('rho_crit', 'a', 'v_free', 'C' - as the repository's tests and examples do)
+        bare_ok = rng.random() < 0.45
+        bare_used = set()
+        self.param_name = {}  # (element id | '#', attribute) -> declared name
         for (eid, attr) in self.sym_keys:
             if eid == "#":
                 name = attr
@@ -51,11 +57,15 @@ class CompileCase:
                 val = pars[attr]
             else:
                 name = f"{attr}_{eid}"
+                if bare_ok and attr not in bare_used and attr not in pars:
+                    name = attr
+                    bare_used.add(attr)
                 s = self.XX.sym(name)
                 override[(eid, attr)] = s
                 val = (linkd.get(eid) or orgd.get(eid))[attr]
             self.parameters[name] = s
             self.pvalues[name] = float(val)
+            self.param_name[(eid, attr)] = name
         for k, v in (extra_params or {}).items():
             self.parameters[k] = self.XX.sym(k)
             self.pvalues[k] = float(v)
